@@ -284,7 +284,7 @@ func exec(t []string) string {
 			panic("harness: bad index")
 		}
 		return doBranch(m, *txs[i])
-	case "check", "spec":
+	case "check", "spec", "padded":
 		return doCheck(message(t))
 	case "branch":
 		return doBranch(message(t), hash1(t[5]))
@@ -382,6 +382,27 @@ func oracle(t []string, out string) *hx.Violation {
 		for i := range t[5] {
 			if t[5][i] == '1' && t[7][i] != '1' {
 				return &hx.Violation{Kind: "nmb-false-negative", Detail: "a transaction whose id was added to the filter is not matched"}
+			}
+		}
+	case "padded":
+		// CVE-2012-2459 shape: the message is built over the block's list padded with a copy of its
+		// tail (same merkle root); the last token is the TRUE list. Whatever is accepted against the
+		// true root must be a duplicate-free, in-order selection of the block's transactions.
+		if !strings.HasPrefix(out, "ok") {
+			return nil
+		}
+		txs := hashes(t[5])
+		f := strings.Fields(out)
+		k := 0
+		if len(f) > 1 {
+			for _, id := range hashes(f[1]) {
+				for k < len(txs) && *txs[k] != *id {
+					k++
+				}
+				if k == len(txs) {
+					return &hx.Violation{Kind: "padded-forgery", Detail: "a merkle block over the tail-padded transaction list verified against the block's root and returned a transaction twice / out of the block"}
+				}
+				k++
 			}
 		}
 	case "check", "spec":
@@ -598,9 +619,38 @@ func genNMB(g *hx.Gen) {
 	}
 }
 
+// merkle blocks over a tail-padded list: equal sibling hashes must be refused by VALUE
+func genPadded(g *hx.Gen) {
+	r := g.R
+	for k := 0; k < g.N(60, 600); k++ {
+		var n, dup int
+		switch r.Intn(3) {
+		case 0: // odd count: repeat the last transaction
+			n, dup = 3+2*r.Intn(20), 1
+		case 1: // 2 mod 4: repeat the last pair
+			n, dup = 6+4*r.Intn(10), 2
+		default: // 4 mod 8: repeat the last four
+			n, dup = 12+8*r.Intn(5), 4
+		}
+		txs := r.Bytes(32 * n)
+		padded := append(append([]byte{}, txs...), txs[32*(n-dup):]...)
+		bits := []byte(randBits(r, n+dup))
+		if r.Chance(70) { // the interesting case: both copies are (or sit under) matched nodes
+			bits[n-1], bits[n+dup-1] = '1', '1'
+		}
+		m, root := buildBlock(hashes(hx.Hex(padded)), string(bits))
+		hs := []byte{}
+		for _, h := range m.Hashes {
+			hs = append(hs, h[:]...)
+		}
+		g.Emit("padded %d %s %s %s %s", n+dup, hex.EncodeToString(root[:]), hx.Hex(m.Flags), hx.Hex(hs), hx.Hex(txs))
+	}
+}
+
 func gen(g *hx.Gen) {
 	r := g.R
 	genNMB(g)
+	genPadded(g)
 	// exhaustive match patterns for small n
 	maxEx := g.N(6, 10)
 	for n := 1; n <= maxEx; n++ {
